@@ -435,10 +435,62 @@ func c14Run(c *mc.Check) {
 	f.Done()
 }
 
+// c14Collide: projections of several fields over values that concatenate equally.
+func c14Collide(c *mc.Check) {
+	shapes := []dsShape{
+		{Files: 2, Blocks: "collide", Benches: 3, Units: "ns", Reps: 2, Pattern: "shifted", Collide: true},
+		{Files: 1, Blocks: "collide", Benches: 3, Units: "ns+B", Reps: 5, Pattern: "shifted", Collide: true},
+		{Files: 2, Blocks: "collide", Benches: 3, Units: "ns", Reps: 1, Pattern: "equal", Collide: true, Missing: true},
+	}
+	var flags []c14Flags
+	for _, table := range []string{".config", "goos,note", ""} {
+		for _, row := range []string{".name,/k", ".fullname", "/k,.name"} {
+			for _, col := range []string{".file", "goos,note", "note,goos", ".name,/k"} {
+				if row == col {
+					continue
+				}
+				for _, ign := range []string{"", "note"} {
+					flags = append(flags, c14Flags{table, row, col, ign, "*", 0.05, 0.95})
+				}
+			}
+		}
+	}
+	f := c.Family("colliding-keys", fmt.Sprintf("%d dataset shapes whose benchmark names and configuration values differ but concatenate to the same bytes ((.name,/k) = (B,11) and (B1,1); (goos,note) = (ab,c) and (a,bc)) × %d flag combinations with projections of SEVERAL fields in -table, -row and -col: the same cell-for-cell oracle as datasets-x-flags — distinct key tuples are distinct tables, rows and columns; non-trivial = every run", len(shapes), len(flags)), c14Replay)
+	if c.Replaying() {
+		return
+	}
+	total := len(shapes) * len(flags)
+	dirs := make([]string, mc.Workers())
+	for i := range dirs {
+		dirs[i], _ = os.MkdirTemp("", "verif-c14c-")
+		defer os.RemoveAll(dirs[i])
+	}
+	mc.ParRange(uint64(total), 4, c.TimeUp, func(w int, lo, hi uint64) {
+		l := f.Local()
+		for i := lo; i < hi; i++ {
+			sh, fl := shapes[int(i)/len(flags)], flags[int(i)%len(flags)]
+			var msg string
+			if p := mc.Catch(func() { msg = c14Check(dirs[w], sh, fl) }); p != "" {
+				msg = p
+			}
+			l.Evals++
+			l.Nontrivial++
+			l.Outcome(fmt.Sprintf("ok=%v", msg == ""))
+			if msg != "" {
+				c.Fail(f, "benchstat-cells", c14Case{sh, fl}, msg)
+			}
+		}
+		l.Flush()
+	})
+	f.Sample(c14Case{shapes[0], flags[3]})
+	f.Done()
+}
+
 func TestVerifC14(t *testing.T) {
 	c := mc.NewCheck("C14")
 	c.Assume("cell statistics are benchmath (checked by C13) applied to the samples the oracle derives from the dataset description; key extraction follows the models checked by C05/C08")
 	c14Run(c)
+	c14Collide(c)
 	if code := c.Finish(); code != 0 {
 		os.Exit(code)
 	}
